@@ -70,6 +70,12 @@ var props = map[string]propCfg{
 }
 
 func init() {
+	props["C11"] = propCfg{Engine: "pipesim", Level: "exploration", QuickRandom: 30000, QuickWall: 25, ThoroughRand: 3000000, ThoroughWall: 420,
+		Rule: "one case = one simulated run of Emit or Unfold on the virtual clock. Enumerated: {Emit,Unfold} x capacity {0,1,2,5} x consumer takes 0..4 values (thorough 0..7) x 6 base schedules x 3 consumer paces (always ready, fixed slower pace, burst after a long stall), cancel swept over every step; then seeded random plans: function family, frequency {1ms,10ms,1s}, Try-mode failing index sets, consumer paces, cancel by step / virtual time / after the consumer left. Oracles: k-th value exact (online), calls at least one frequency apart, k-th value not before k ticks, always-ready consumer receives exactly one value per tick, close and exit after cancel. " + distinctRule}
+	props["C12"] = propCfg{Engine: "pipesim", Level: "exploration", QuickRandom: 30000, QuickWall: 25, ThoroughRand: 3000000, ThoroughWall: 420,
+		Rule: "one case = one simulated run of Join with 0..5 inputs, one producer task per input. Enumerated: 11 input shapes (thorough 15) x capacity {0,1,3} x 6 base schedules x {plain, one input closing long after the others, slow consumer}; then seeded random plans (lengths <= 6, thorough <= 30; independent paces; one deliberately slow input; an input that never closes). Oracles: per-input order online, completeness, close observed strictly after every producer's close and after every element, close does happen, no close when an input stays open. " + distinctRule}
+	props["C13"] = propCfg{Engine: "pipesim", Level: "exploration", QuickRandom: 30000, QuickWall: 25, ThoroughRand: 3000000, ThoroughWall: 420,
+		Rule: "one case = one simulated run of Throttling on the virtual clock. Enumerated: ops {1,2} (thorough 1..3) x c {0,1,3} x 4 lengths x 6 base schedules x {saturated, consumer late by 2.5 intervals, input late by 2.5 intervals, slow consumer}; then seeded random plans: ops {1,2,3,5}, interval {10ms,100ms,1s}, idle-then-burst on either side, idle in the middle, random paces, cancel. Oracles: order/content online, window bound 2*ops+1+c over every window of deliveries before cancel, interval membership under the saturated schedule, closure. " + distinctRule}
 	props["C09"] = propCfg{Engine: "pipesim", Level: "exploration", QuickRandom: 30000, QuickWall: 25, ThoroughRand: 3000000, ThoroughWall: 480,
 		Rule: "one case = one simulated run of a fork stage (Map, FMap, Filter, Partition, ForEach, Void) with par workers. Enumerated: stage x par {1,2,3} x length 0..4 x 6 base schedules x {pure, Try with failing positions}, cancel swept over every step for par<=2, n<=3 (thorough: par<=4, length<=6); then seeded random plans: par in {1,2,3,4,8}, length <= 3*par (thorough <= 60), stalls and extra scheduling points inside the user function (completion orders), statement-level preemption, cancel, abandonment, never-closing input. " + distinctRule}
 	props["C10"] = propCfg{Engine: "pipesim", Level: "exploration", QuickRandom: 30000, QuickWall: 25, ThoroughRand: 3000000, ThoroughWall: 420,
